@@ -218,6 +218,8 @@ def run_property(pid, tier, seed, only_shard=None):
     # interpreter configuration dimension: every shard (or every PYOPT-th, for the expensive properties) runs a second
     # time in an interpreter started with -O -W error
     stride = getattr(mod, "PYOPT", 1)
+    if isinstance(stride, dict):
+        stride = stride.get(tier, 1)
     if stride:
         shards = shards + [dict(s, pyopt=True) for s in shards[::stride]]
     scratch = tempfile.mkdtemp(
